@@ -79,6 +79,11 @@ impl WorkerGoals {
     pub fn debug_is_requested(&self, goal: WorkerGoal) -> bool {
         self.requests[goal]
     }
+
+    #[cfg(mmtk_verif)]
+    pub fn verif_pending_count(&self) -> usize {
+        self.requests.values().filter(|r| **r).count()
+    }
 }
 
 #[cfg(test)]
